@@ -425,3 +425,18 @@ Proof.
   - intros [x [H1 H2]]. apply in_map_iff in H1. destruct H1 as [[x0 l] [E H1]]. cbn in E. subst x0.
     exists (x, l). split; [exact H1|]. cbn. intuition.
 Qed.
+
+(* what one statement adds to a result dictionary: the document loop files the same object under the same
+   name whatever the dictionary holds already *)
+Inductive fdelta :=
+| FDom (x : pstr) (i j : nat)                 (* a domain and its complement *)
+| FKind (k : kind) (n : pstr) (i : nat)       (* a strand, complex or macrostate *)
+| FRxn (cond : bool) (st : state) (i : nat).  (* a reaction, by s.add *)
+Definition apply_delta (d : fdelta) (a : pilout) : pilout :=
+  match d with
+  | FDom x i j => with_domains a (dset (star x) j (dset x i (po_domains a)))
+  | FKind k n i => with_dict k a (dset n i (dict_of k a))
+  | FRxn cond st i =>
+      if cond then with_rxns a (po_det a) (set_add st i (po_con a))
+      else with_rxns a (set_add st i (po_det a)) (po_con a)
+  end.
